@@ -31,7 +31,7 @@ def plan(rnd, tier):
     refresh = rnd.choice([1, 3600, 86400])
     mode = rnd.randint(0, 3)
     delta = rnd.choice([-1, -1, 0, 0, 1, 1, 1, rnd.randint(2, 50), rnd.choice([10 ** 5, 10 ** 6])])
-    scen = rnd.choice(["plain", "reload", "reload", "reload", "twice", "stop-mid", "stop-unreachable", "delta-fault"])
+    scen = rnd.choice(["plain", "reload", "reload", "reload", "twice", "stop-mid", "stop-unreachable", "delta-fault", "huge-expire"])
     how = rnd.choice(HOWS[:-1])
     return {"cfg": (refresh, expire, retry, mode), "delta": delta, "scen": scen, "how": how,
             "ver": rnd.choice([1, 1, 0]), "chunk": rnd.choice([None, None, 7, "rand"]), "k": rnd.randint(0, 8),
@@ -56,7 +56,31 @@ def align(rnd, refresh, retry, target, cost, via):
     return x, d, j, aligned
 
 
+def build_huge(rnd, p):
+    """accept-any mode and an End of Data whose expire interval is near 2^32: last_update + expire does not fit 32 bits; the data
+    must survive every reconnect of the run (nothing here lasts that long)"""
+    refresh, expire, retry, _mode = p["cfg"]
+    big = rnd.choice([2 ** 32 - 1, 2 ** 32 - 1000, 2 ** 31, 2 ** 32 - 1])
+    p["cfg"] = (refresh, expire, retry, 1)
+    p["ver"] = 1
+    p["expire_eff"] = big
+    c = L.Conv(rnd, p["cfg"], ver=1, ivals=(refresh, retry, big), npre=p["npre"], chunk=p["chunk"], nopens=800)
+    c.cache.mutate(n=rnd.randint(2, 5))
+    if not c.cache.data:
+        c.cache.mutate(n=3)
+    ok = c.answer()
+    if ok:
+        ok = c.refresh(extra=1) if p["via"] == "refresh" else c.notify_after(rnd.choice([0, 1, refresh - 1]))
+    if ok:
+        ok = c.cut(rnd.randint(0, 2), rnd.choice(["err", "close", "timeout"]))
+    if ok:
+        c.fail_opens(rnd.choice([0, 1, 3]))
+    return c
+
+
 def build(rnd, p):
+    if p["scen"] == "huge-expire":
+        return build_huge(rnd, p)
     refresh, expire, retry, mode = p["cfg"]
     c = L.Conv(rnd, p["cfg"], ver=p["ver"], npre=p["npre"], chunk=p["chunk"], nopens=800)
     c.cache.mutate(n=rnd.randint(2, 5))
@@ -132,10 +156,13 @@ def oracle(tr, script, meta, stats=None):
     except L.ClockError as e:
         return {"key": "clock", "what": "the trace does not fit the script's events: %s" % e}
     expire = script.cfg[1]
+    eff = (meta.get("plan") or {}).get("expire_eff")
+    if eff:
+        expire = eff          # accept-any mode: the first End of Data (the only source of data) put this value in force
     for l in lines:
         if l.startswith("DUMP "):
             f = dict(x.split("=", 1) for x in l.split()[2:])
-            if int(f["expire"]) != expire:
+            if int(f["expire"]) not in (expire, script.cfg[1]):
                 # a (fabricated) End of Data changed the expire interval: outside what this oracle can date
                 if stats is not None:
                     stats["skipped_interval_change"] = stats.get("skipped_interval_change", 0) + 1
